@@ -53,7 +53,7 @@ def timed(case, seed):
             steps = base + [(0.3, {"op": "eval", "id": "e1", "session": "garden-1", "code": loop}),
                             (0.6, {"op": "close", "id": "k1", "session": "garden-1"})]
         t0 = time.time()
-        ev, _ = nc.run_scenario(srv, steps, quiet_s=2.5, max_s=8.0)
+        ev, _ = nc.run_scenario(srv, steps, quiet_s=2.5, max_s=25.0, tail_s=20.0)
         st = status_of(ev, "e1")
         return st == ["done", "interrupted"], f"loop after {case} ended with status {st} ({time.time() - t0:.1f}s)"
     finally:
